@@ -354,6 +354,11 @@ func EncryptCPAonG1(s pairing.Suite, basePoint, public kyber.Point, ID, msg []by
 		// we're using blake2 as XOF which only outputs 2^16-1 length
 		return nil, errors.New("ciphertext too long")
 	}
+	// the mask produced by gtToHash is a single hash output: anything beyond
+	// it would be XORed with zeros, i.e. stay in clear
+	if len(msg) > s.Hash().Size() {
+		return nil, errors.New("plaintext too long for the hash function provided")
+	}
 	hashable, ok := s.G2().Point().(kyber.HashablePoint)
 	if !ok {
 		return nil, errors.New("point needs to implement hashablePoint")
